@@ -449,3 +449,13 @@ Lemma guard_satisfiable_lem :
   front_end_names_ok ok_ns_scope = true /\ names_guard ok_ns_scope = true /\
   front_end_names_ok (EnumScope sample_enum) = true /\ names_guard (EnumScope sample_enum) = true.
 Proof. vm_compute. repeat split; reflexivity. Qed.
+
+(* ------------------------------------------------------------------------- *)
+(* 6. include guards                                                           *)
+(* ------------------------------------------------------------------------- *)
+
+(* distinct module paths can get one include guard: a header importing both loses the second *)
+Lemma header_guard_refuted_lem :
+  exists p q, p <> q /\ header_guard p = header_guard q /\
+              header_guard p = "X_Y_EMB_H_"%string.
+Proof. exists "x/y.emb"%string, "x_y.emb"%string. split; [discriminate|]. split; reflexivity. Qed.
